@@ -12,8 +12,9 @@ func parseRelated(str string) *RefactorChangeRelate {
 		return nil
 	}
 
-	result.NewObj = splitStr[1]
-	result.OldObj = splitStr[0]
+	// blanks around the names and the carriage return of a CRLF file are not part of the names
+	result.NewObj = strings.TrimSpace(splitStr[1])
+	result.OldObj = strings.TrimSpace(splitStr[0])
 	return result
 }
 
